@@ -47,6 +47,7 @@ type Contract struct {
 	Theory   string
 	Pure     bool
 	Wraps    bool // arithmetic intended to wrap: no range obligations
+	Invokes  string // `invokes p`: the (library) function calls its function-valued parameter p once, synchronously, with non-nil arguments
 	Trusted  bool
 	Refines  []string
 	Params   []string // parameter names for lib contracts (optional)
@@ -381,6 +382,12 @@ func (ss *SpecSet) parseFile(path string, trusted bool, pkgName string) {
 		case "nobody":
 			finish()
 			cur.NoBody = true
+			continue
+		case "invokes":
+			finish()
+			if len(fields) > 1 {
+				cur.Invokes = fields[1]
+			}
 			continue
 		case "seeds":
 			finish()
